@@ -126,13 +126,18 @@ def strategy(draw):
                 lo, hi = (v, hi) if which == 0 else (lo, v)
         steps.append(dict(range=[lo, hi], how=draw(st.sampled_from(["tuple", "tuple", "list", "same-list", "same-list"])),
                           kw=draw(st.sampled_from(["none", "empty", "empty"]))))
-    return dict(f=f, curves=curves, steps=steps)
+    # stored order of the grid: ascending, or descending (centre frequencies may be requested in descending order and
+    # curves tabulated by period arrive that way)
+    return dict(f=f, curves=curves, steps=steps, descending=draw(gen.chance(5)))
 
 
-def _in_sets(f, a, lo_b, hi_b):
-    """MUST / MAY sets of run representatives for the range (lo_b, hi_b)."""
+def _in_sets(f, a, lo_b, hi_b, mirror=False):
+    """MUST / MAY sets of run representatives for the range (lo_b, hi_b).  ``mirror``: the curve is stored in
+    descending order, so the representative of an even-length plateau is its other middle sample."""
     n = len(f)
     runs = oracle.local_max_runs(a)
+    if mirror:
+        runs = [(i, j, (i + j + 1) // 2) for (i, j, q) in runs]
     flo = -math.inf if lo_b is None else lo_b
     fhi = math.inf if hi_b is None else hi_b
     lo_edge = 0 if lo_b is None else max(oracle.nearest_index(f, lo_b))
@@ -150,8 +155,8 @@ def _in_sets(f, a, lo_b, hi_b):
     return must, may
 
 
-def _check_peak(what, f, a, rng, pf, pa):
-    must, may = _in_sets(f, a, rng[0], rng[1])
+def _check_peak(what, f, a, rng, pf, pa, mirror=False):
+    must, may = _in_sets(f, a, rng[0], rng[1], mirror)
     if pf is None or (isinstance(pf, float) and math.isnan(pf)):
         if must:
             q = max(must, key=lambda q: a[q])
@@ -184,10 +189,14 @@ def check_case(case):
     n = len(f)
     A = np.array([expand_curve(c, n) for c in case["curves"]])
     labels = []
-    singles = [hv.HvsrCurve(f, a) for a in A]
-    trad = hv.HvsrTraditional(f, A)
-    azi = hv.HvsrAzimuthal([hv.HvsrTraditional(f, A), hv.HvsrTraditional(f, A[::-1])], [0.0, 90.0])
-    dfield = hv.HvsrDiffuseField(f, A[0])
+    desc = bool(case.get("descending"))
+    fs_, As_ = (f[::-1].copy(), A[:, ::-1].copy()) if desc else (f, A)      # as stored in the objects; the oracle works on (f, A)
+    if desc:
+        labels.append("descending-grid")
+    singles = [hv.HvsrCurve(fs_, a) for a in As_]
+    trad = hv.HvsrTraditional(fs_, As_)
+    azi = hv.HvsrAzimuthal([hv.HvsrTraditional(fs_, As_), hv.HvsrTraditional(fs_, As_[::-1])], [0.0, 90.0])
+    dfield = hv.HvsrDiffuseField(fs_, As_[0])
     shared = [None, None]
     nontrivial = False
     multi = [len(oracle.local_max_runs(a)) >= 2 for a in A]
@@ -197,18 +206,18 @@ def check_case(case):
         has_peak = []
         for i, (c, a) in enumerate(zip(singles, A)):
             pf, pa = float(c.peak_frequency), float(c.peak_amplitude)
-            kind = _check_peak(f"step {step}: HvsrCurve {i}", f, a, rng, pf, pa)
+            kind = _check_peak(f"step {step}: HvsrCurve {i}", f, a, rng, pf, pa, desc)
             has_peak.append(kind == "peak")
             # beyond-grid bounds behave as open ends
             lo, hi = rng
             eq = [None if (lo is not None and lo <= f[0]) else lo, None if (hi is not None and hi >= f[-1]) else hi]
             if eq != list(rng):
-                ref = hv.HvsrCurve(f, a)
+                ref = hv.HvsrCurve(fs_, a[::-1] if desc else a)
                 ref.update_peaks_bounded(tuple(eq))
                 if not _same(float(ref.peak_frequency), pf):
                     raise Violation(f"step {step}: curve {i}: range {tuple(rng)} reaches beyond the grid [{f[0]!r}, {f[-1]!r}] but gives peak {pf!r}, "
                                     f"while the open-ended range {tuple(eq)} gives {float(ref.peak_frequency)!r}", frequency=f, amplitude=a)
-            must, may = _in_sets(f, a, rng[0], rng[1])
+            must, may = _in_sets(f, a, rng[0], rng[1], desc)
             if multi[i] and (rng[0] is not None or rng[1] is not None) and len(may) < len(oracle.local_max_runs(a)):
                 nontrivial = True
         # traditional / azimuthal rows agree with the single curves, bit for bit
@@ -235,19 +244,20 @@ def check_case(case):
                 continue    # azimuthal statistics need >= 1 accepted window per azimuth (C11's domain)
             for dist in ("lognormal", "normal"):
                 mc = np.asarray(obj.mean_curve(dist), dtype=float)
+                mc = mc[::-1] if desc else mc
                 try:
                     mf, ma = sut(obj.mean_curve_peak, dist, allow=(ValueError,), what=f"{name}.mean_curve_peak")
                     mf, ma = float(mf), float(ma)
                 except Refusal:
                     mf, ma = math.nan, math.nan
-                _check_peak(f"step {step}: {name}.mean_curve_peak({dist})", f, mc, rng, mf, ma)
+                _check_peak(f"step {step}: {name}.mean_curve_peak({dist})", f, mc, rng, mf, ma, desc)
         try:
             mf, ma = sut(dfield.mean_curve_peak, None, tuple(rng), allow=(ValueError,), what="HvsrDiffuseField.mean_curve_peak")
             mf, ma = float(mf), float(ma)
         except Refusal:
             mf, ma = math.nan, math.nan
-        _check_peak(f"step {step}: HvsrDiffuseField.mean_curve_peak", f, A[0], rng, mf, ma)
-        _check_peak(f"step {step}: HvsrDiffuseField", f, A[0], rng, float(dfield.peak_frequency), float(dfield.peak_amplitude))
+        _check_peak(f"step {step}: HvsrDiffuseField.mean_curve_peak", f, A[0], rng, mf, ma, desc)
+        _check_peak(f"step {step}: HvsrDiffuseField", f, A[0], rng, float(dfield.peak_frequency), float(dfield.peak_amplitude), desc)
 
     verify((None, None), 0)
     for step, s in enumerate(case["steps"], start=1):
